@@ -158,6 +158,19 @@ def estimator_configs():
     add("AnnotatorLogisticRegression", "default", alr, "multi", multi=True)
     add("AnnotatorLogisticRegression", "solver_dict={'maxiter':50},no sample_weight", alr_dict, "multi", multi=True,
         weights=False)
+    # dictionary-valued parameters that leave out keys the estimator has defaults for (a default filled in with
+    # setdefault / update lands in the caller's dict) and empty dictionaries
+    def alr_partial():
+        d = {"gtol": 1e-6}
+        return (AnnotatorLogisticRegression(classes=[0, 1], n_annotators=2, solver_dict=d, random_state=0),
+                [("solver_dict", d)])
+
+    def pwc_empty():
+        d = {}
+        return PWC(classes=[0, 1], metric_dict=d, random_state=0), [("metric_dict", d)]
+
+    add("AnnotatorLogisticRegression", "solver_dict={'gtol':1e-6}", alr_partial, "multi", multi=True)
+    add("ParzenWindowClassifier", "metric_dict={}", pwc_empty, "clf")
     add("AnnotatorEnsembleClassifier", "PWC,PWC(gamma='mean')", aec, "multi", multi=True, sym=True)
 
     # --- regressors
@@ -180,6 +193,17 @@ def estimator_configs():
     add("NICKernelRegressor", "metric_dict=None", nic_none, "reg", alt=(lambda: {"kappa_0": 0.5}, False))
     add("NICKernelRegressor", "metric_dict={'gamma':0.5}", nic_dict, "reg")
     add("NadarayaWatsonRegressor", "metric_dict=None", nw_none, "reg")
+
+    def nic_empty():
+        d = {}
+        return NICKernelRegressor(metric_dict=d, random_state=0), [("metric_dict", d)]
+
+    def nw_empty():
+        d = {}
+        return NadarayaWatsonRegressor(metric_dict=d), [("metric_dict", d)]
+
+    add("NICKernelRegressor", "metric_dict={}", nic_empty, "reg")
+    add("NadarayaWatsonRegressor", "metric_dict={}", nw_empty, "reg")
     add("SklearnRegressor", "LinearRegression", skr(SklearnRegressor, LinearRegression), "reg")
     add("SklearnRegressor", "DecisionTreeRegressor",
         skr(SklearnRegressor, lambda: DecisionTreeRegressor(random_state=0)), "reg")
